@@ -36,6 +36,14 @@ def Src.read (s : Src) (n : Nat) : ReadRes :=
     if c.length ≤ n then ⟨c, none, ⟨cs, s.tail⟩⟩
     else ⟨c.take n, none, ⟨c.drop n :: cs, s.tail⟩⟩
 
+/-- The same `Read` on a transport that reports the end of the stream together with the last bytes
+(`eager`): `io.Reader` allows `(n > 0, err)`, and a QUIC stream returns its final bytes with `io.EOF`
+when the FIN arrives in the same frame. -/
+def Src.readE (eager : Bool) (s : Src) (n : Nat) : ReadRes :=
+  if eager && (s.read n).rest.pending.isEmpty && !(s.read n).data.isEmpty then
+    { (s.read n) with err := some s.tail }
+  else s.read n
+
 /-- `io.ReadFull` over the chunk list: `(bytes read, remaining chunks, complete?)`.
 Structural recursion on the chunk list is the termination argument: every
 `Read` either consumes a chunk or completes the request. -/
